@@ -70,10 +70,13 @@ def run(ctx):
                         pkg.content_types["overrides"].append(("/" + mname, rng.choice(["image/svg+xml", "image/x-emf", "image/vnd.ms-photo", "image/x-png"])))
             if pkg.media and rng.random() < 0.4:
                 # byte-identical images (a logo used twice) are still separate images
+                # — same bytes AND same declared type, so that nothing but their position tells them apart
                 same = bytes(rng.randrange(256) for _ in range(9))
+                same_type = rng.choice(["image/png", "image/gif", "image/x-emf"])
                 for name in pkg.media:
                     if rng.random() < 0.7:
                         pkg.media[name] = same
+                        pkg.content_types["overrides"] = [o for o in pkg.content_types["overrides"] if o[0] != "/" + name] + [("/" + name, same_type)]
             d = os.path.join(wd.path, "c%d" % i)
             os.makedirs(d)
             name = rng.choice(["in.docx", "Üñï çødé.docx", "two.dots.docx"])
